@@ -378,7 +378,8 @@ def run(ctx):
         from engine.analyses import subst_upvars as _su
         lk_fn = sc[0]
         asks = []
-        for k_ in [lk_fn] + sorted(prog.closures_of(lk_fn)):
+        _spliced_here = set(prog.body(lk_fn).fn.get("inlined") or [])      # closures already written out in the look-up's own (plumbing-view) body
+        for k_ in [lk_fn] + sorted(c_ for c_ in prog.closures_of(lk_fn) if c_ not in _spliced_here):
             kb_ = prog.body(k_)
             for (bb_, t_) in kb_.calls():
                 n_ = callee_name(t_)
